@@ -25,7 +25,9 @@ struct Slot {
 }
 const EMPTY: Slot = Slot { key: Buf::new(), msg: Buf::new() };
 static mut ARENA: [Slot; STATES] = [EMPTY; STATES];
-static mut NEXT: usize = 0;
+// starts from a distinctive magic, not 0: see `model` in lib.rs (a mutable static must not share its bytes with a program constant)
+const NEXT_MAGIC: usize = 0x736f_6469_756d_4e00;
+static mut NEXT: usize = NEXT_MAGIC;
 
 /// Streaming BLAKE2b state: `update` concatenates, `finalize` evaluates the uninterpreted function once.
 /// NOTE: no field with a niche (bool, reference, NonNull, enum): rustc would store the discriminant of
@@ -49,9 +51,9 @@ impl State {
             }
         }
         unsafe {
-            let slot = NEXT;
+            let slot = NEXT - NEXT_MAGIC;
             assert!(slot < STATES, "[model] capacity: more generichash states than STATES");
-            NEXT = slot + 1;
+            NEXT = NEXT_MAGIC + slot + 1;
             ARENA[slot].key = Buf::new();
             ARENA[slot].msg = Buf::new();
             let mut keyed = 0;
